@@ -216,9 +216,10 @@ def hexa_cube():
     return [[0, 0, 0], [1, 0, 0], [1, 1, 0], [0, 1, 0], [0, 0, 1], [1, 0, 1], [1, 1, 1], [0, 1, 1]]
 
 
-@proof("C14", "bounded/scaling-and-stretch-monotone", cases=["scale", "scale-quad", "stretch"], functions=FUNCS, bounded=True, samples=60,
+@proof("C14", "bounded/scaling-and-stretch-monotone", cases=["scale", "scale-quad", "stretch", "rigid-motion-of-exact-boxes"], functions=FUNCS, bounded=True, samples=60,
        level="B", note="bounded stand-in only: uniform scaling 0.1..100 of cells of size >= 0.1 (VSMALL makes it approximate); "
-                       "stretching a cube never lowers the value")
+                       "stretching a cube never lowers the value; exact cubes and boxes (all angles exactly right, where the float "
+                       "evaluation is most delicate) keep their value under random rotations and translations")
 def bounded_scale(ctx):
     rng = ctx.rng
     if ctx.case == "scale":
@@ -234,6 +235,22 @@ def bounded_scale(ctx):
         q1 = QuadCell(P * r1, [0, 1, 2, 3]).quality
         q2 = QuadCell(P * r2, [0, 1, 2, 3]).quality
         ctx.prove("quad-scale-invariant-within-1e-3", abs(q1 - q2) <= 1e-3 * max(1.0, abs(q1)), q1=q1, q2=q2, r1=r1, r2=r2)
+    elif ctx.case == "rigid-motion-of-exact-boxes":
+        import math as _m
+
+        box = np.array(hexa_cube(), dtype=float) * np.array(rng.choice([[1.0, 1.0, 1.0], [1.0, 2.0, 3.0], [5.0, 5.0, 1.0], [0.1, 0.1, 0.4]]))
+        q = np.array([rng.gauss(0, 1) for _ in range(4)])
+        q = q / np.linalg.norm(q)
+        a_, b_, c_, d_ = q
+        R = np.array([[a_ * a_ + b_ * b_ - c_ * c_ - d_ * d_, 2 * (b_ * c_ - a_ * d_), 2 * (b_ * d_ + a_ * c_)],
+                      [2 * (b_ * c_ + a_ * d_), a_ * a_ - b_ * b_ + c_ * c_ - d_ * d_, 2 * (c_ * d_ - a_ * b_)],
+                      [2 * (b_ * d_ - a_ * c_), 2 * (c_ * d_ + a_ * b_), a_ * a_ - b_ * b_ - c_ * c_ + d_ * d_]])
+        moved = box @ R.T + np.array([rng.uniform(-10, 10) for _ in range(3)])
+        ref = hexcell(box).quality
+        val, exc = ctx.call(lambda: hexcell(moved).quality)
+        ctx.prove("a-rigidly-moved-box-can-still-be-measured", exc is None, exc=repr(exc))
+        if exc is None:
+            ctx.prove("and-has-the-same-value", abs(val - ref) <= 1e-6 * max(1.0, abs(ref)), ref=ref, val=val)
     else:
         a = rng.uniform(0.5, 5)
         k1 = rng.uniform(1, 10)
